@@ -161,10 +161,13 @@ class Gen:
     self.paths = []          # container paths (lists of key refs) for uncollapse
     self.class_kinds = set()
     self.uniq = itertools.count(1000)
+    # Payloads in keys only in a part of the cases: the other cases explore the
+    # remaining positions without the (costly) attribution of key findings.
+    self.key_payloads = rng.random() < 0.4
 
   def keyref(self, key_kind):
     r = self.rng.random()
-    if r < 0.6:
+    if self.key_payloads and r < 0.6:
       return ['slot', self.S.new(self.rng, key_kind, KEY_TEMPLATES)]
     self.n += 1
     return ['plain', f'k{self.n}']
